@@ -208,12 +208,15 @@ func main() {
 		add(cons.WV(1, 1), 4, 1)
 		add(cons.WV(1, 2, 3), 4, 1)
 		add(cons.WV(2, 1, 1, 1), 4, 0)
+		// stake-sized weights: partial sums between 2/3 of the total and 2^32/3 (arithmetic on Weight must not wrap)
+		add(cons.WV(600000000, 500000000, 450000000, 400000000), 4, 0)
 	} else {
 		add(cons.WV(1, 1), 5, 1)
 		add(cons.WV(1, 2, 3), 5, 1)
 		add(cons.WV(1, 1, 1), 5, 2)
 		add(cons.WV(2, 1, 1, 1), 5, 1)
 		add(cons.WV(1<<29, 1<<29, 1<<30-1), 4, 1)
+		add(cons.WV(600000000, 500000000, 450000000, 400000000), 5, 0)
 	}
 	item := 0
 	for _, g := range fams {
